@@ -208,6 +208,7 @@ CHECKS = {
         "runs": [
             {"entry": M + "/ez.HarnessC18NoWatch", "pkgs": EZP, "must_reach": ["c18-end", "c18-verify-error", "c18-file-error"], "instrument": [M, M + "/sourcewrap", M + "/ez"], "validate": 0},
             {"entry": M + "/ez.HarnessC18Watch", "pkgs": EZP, "must_reach": ["c18-end"], "instrument": [M, M + "/sourcewrap", M + "/ez"], "validate": 0},
+            {"entry": M + "/ez.HarnessC18FileKeys", "pkgs": EZP, "must_reach": ["c18-keys-end", "c18-keys-both-error"], "instrument": [M, M + "/sourcewrap", M + "/ez"], "validate": 0},
         ],
     },
     "C10": {
@@ -230,6 +231,7 @@ CHECKS = {
         "runs": [
             {"entry": M + "/sources/env.HarnessC14Env", "pkgs": ENVP + ["sort"], "must_reach": ["c14-end", "c14-both-error"]},
             {"entry": M + "/sources/env.HarnessC14EnvImplicit", "pkgs": ENVP + ["sort"], "must_reach": ["c14-implicit-end", "c14-implicit-both-error"]},
+            {"entry": M + "/ez.HarnessC18FileKeys", "pkgs": EZP, "must_reach": ["c18-keys-end", "c18-keys-both-error"], "instrument": [M, M + "/sourcewrap", M + "/ez"], "validate": 0},
         ],
     },
     "C15": {
